@@ -21,12 +21,12 @@ echo "== with change: build + pinned tests" >> $LOG
 echo "== with change: demo" >> $LOG
 demo; RC_WITH=$?
 echo "demo exit (with change) = $RC_WITH" >> $LOG
-git stash -q
+git checkout -- src include   # (not git stash: the stash is shared by all worktrees of the repository)
 echo "== without change: build" >> $LOG
 /tmp/wt/bt.sh $W >> $LOG 2>&1
 echo "== without change: demo" >> $LOG
 demo; RC_WITHOUT=$?
 echo "demo exit (without change) = $RC_WITHOUT" >> $LOG
-git stash pop -q
+git apply $OUT/patch.diff
 grep -E "tests passed|demo exit|DID NOT BUILD|CONFIGURE FAILED" $LOG
 if [ $RC_WITH -ne 0 ] && [ $RC_WITHOUT -eq 0 ]; then echo "CONFIRMED $NAME"; else echo "NOT CONFIRMED $NAME"; fi
